@@ -232,9 +232,9 @@ func c12OrderAxioms(t *testing.T, r *h.Runner) {
 		}
 	}
 	// every pair of byte strings of length <= 3 over an alphabet around the
-	// separator (NUL, 0x01, '-', '.', '/', '0', 'a', 0xff): agreement with the
+	// separator (NUL, 0x01, '-', '.', '/', '0', 'a', 0xc3, 0xa8, 0xa9, 0xff): agreement with the
 	// component order (a total order, so antisymmetry/totality/transitivity follow)
-	alpha := []byte{0, 1, '-', '.', '/', '0', 'a', 0xff}
+	alpha := []byte{0, 1, '-', '.', '/', '0', 'a', 0xc3, 0xa8, 0xa9, 0xff} // 0xc3 0xa8 / 0xc3 0xa9: two characters that share their UTF-8 lead byte
 	short := []string{""}
 	for l, prev := 1, []string{""}; l <= 3; l++ {
 		var next []string
